@@ -200,6 +200,11 @@ def mechanism(body, hist, te, tg):
     inh_throw_before = inh_throw_before or any(ent[0].startswith('H!') and ent[0].endswith('/t') for ent in te[1:k + 1])
     o = _opkey(op)
     oe, og = te[k][1], tg[k][1]
+    if state in ('finished', 'closed') and (_cls(oe) == 'yield' or (kind == 'agen' and _cls(oe).endswith(':stop')
+                                                                   and not o.startswith(('aclose', 'athrow')))):
+        # the bookkeeping thought the object was done, but the reference resumes it (e.g. an async generator that
+        # swallowed an athrow(GeneratorExit)): the suspension point is simply not known
+        state = 'susp-unknown'
     info = {'k': k, 'state': state, 'op': op}
     opk = o.split(':')[0].split('/')[0]
     oparg = o.split(':')[1].split('/')[0] if ':' in o else ''
